@@ -66,8 +66,9 @@ IDENTITY_CALLS = {"np.asarray", "np.asanyarray", "np.ascontiguousarray"}
 
 class FuncSpec:
     def __init__(self, file, name, lean, params, pyparams=None, bind=None, given=(), absent=(), locals=None,
-                 cell=None, skip=(), doc="", which=-1, ret=None, zero_of=None, raises=False):
+                 cell=None, skip=(), doc="", which=-1, ret=None, zero_of=None, raises=False, gen=False):
         self.raises = raises                # `raise` -> `none`, `return x` -> `some x`
+        self.gen = gen                      # generator of index tuples `(…, slice(a, b), …)`: the list of (position, a, b)
         self.file, self.name, self.lean = file, name, lean
         self.params = params                # [(lean name, type)] explicit parameters of the generated definition
         self.pyparams = pyparams or {}      # python parameter -> (lean expr, type); default: same name in params
@@ -95,6 +96,8 @@ def lean_type(t):
         return " → ".join(["Nat"] * t[2] + [lean_type(t[1])])
     if t[0] == "F":
         return " → ".join([lean_type(a) for a in t[1]] + [lean_type(t[2])])
+    if t[0] == "T":
+        return "(" + " × ".join(lean_type(x) for x in t[1]) + ")"
     raise TranslateError(f"type {t}")
 
 
@@ -344,6 +347,12 @@ class Tr:
         if fsrc == "round" and len(e.args) == 1:
             a, ta = self.expr(e.args[0])
             return (f"(o.round {self.coerce(a, ta, K, e)})", I)
+        if fsrc == "math.ceil" and len(e.args) == 1 and isinstance(e.args[0], ast.BinOp) and isinstance(e.args[0].op, ast.Div):
+            a, ta = self.expr(e.args[0].left)
+            b, tb = self.expr(e.args[0].right)
+            if ta == N and tb == N:
+                return (f"(pyCeilDiv {a} {b})", N)
+            self.err(e, "math.ceil of a quotient of non-naturals")
         if fsrc in ("math.floor", "np.floor") and len(e.args) == 1:
             a, ta = self.expr(e.args[0])
             if fsrc == "np.floor":
@@ -440,6 +449,8 @@ class Tr:
                 elif isinstance(st, ast.Expr) and isinstance(st.value, ast.Call) and isinstance(st.value.func, ast.Attribute) \
                         and st.value.func.attr == "append" and isinstance(st.value.func.value, ast.Name):
                     add(st.value.func.value.id)
+                elif isinstance(st, ast.Expr) and isinstance(st.value, ast.Yield):
+                    add("out_")
 
         walk(stmts)
         return out
@@ -510,6 +521,10 @@ class Tr:
                     self.env[x.id] = (x.id, xt)
                 return pad + f"let ({', '.join(names)}) := {s}\n" + self.block(rest, ind, k_cont, k_ret)
             name = self.target_name(t)
+            if ast.unparse(st.value).startswith("(slice(None),) * "):
+                k, tk = self.expr(st.value.right)
+                self.env[name] = (self.coerce(k, tk, N, st), "FILL")
+                return self.block(rest, ind, k_cont, k_ret)
             want = self.s.locals.get(name)
             if isinstance(st.value, ast.List) and not st.value.elts:
                 if not (isinstance(want, tuple) and want[0] == "L"):
@@ -545,11 +560,51 @@ class Tr:
             lt = self.env[name][1]
             s, ty = self.expr(st.value.args[0])
             return pad + f"let {name} := {name} ++ [{self.coerce(s, ty, lt[1], st)}]\n" + self.block(rest, ind, k_cont, k_ret)
+        if isinstance(st, ast.Expr) and isinstance(st.value, ast.Yield):
+            if not self.s.gen:
+                self.err(st, "yield in a function not declared as a generator (FuncSpec.gen)")
+            return pad + f"let out_ := out_ ++ [{self.index_tuple(st.value.value)}]\n" + self.block(rest, ind, k_cont, k_ret)
         if isinstance(st, ast.If):
             return self.if_stmt(st, rest, ind, k_cont, k_ret)
         if isinstance(st, ast.For):
             return self.for_stmt(st, rest, ind, k_cont, k_ret)
         self.err(st, "unsupported statement")
+
+    def index_tuple(self, v):
+        """a yielded NumPy index tuple with exactly one `slice(a, b)`: -> `(position, a, b)`; what precedes the slice fixes
+        its position: nothing (0), `...` (last axis: `ndim - 1`), `*fillers` with `fillers = (slice(None),) * k` (k)"""
+        if not isinstance(v, ast.Tuple):
+            self.err(v, "yielded value is not a tuple")
+        pos, sl, after = None, None, []
+        before = []
+        for el in v.elts:
+            if isinstance(el, ast.Call) and ast.unparse(el.func) == "slice" and len(el.args) == 2 and sl is None:
+                sl = el
+            elif sl is None:
+                before.append(el)
+            else:
+                after.append(el)
+        if sl is None:
+            self.err(v, "no slice(a, b) in the yielded tuple")
+        is_ell = lambda x: isinstance(x, ast.Constant) and x.value is Ellipsis
+        if any(not is_ell(x) for x in after) or len(after) > 1:
+            self.err(v, "what follows the slice is not `...`")
+        if not before:
+            if not after:
+                self.err(v, "a bare slice is ambiguous for arrays of more than one dimension")
+            pos = "(0 : Nat)"
+        elif len(before) == 1 and is_ell(before[0]) and not after:
+            if "ndim" not in self.env:
+                self.err(v, "`...` before the slice needs `ndim`")
+            pos = f"({self.env['ndim'][0]} - 1)"
+        elif len(before) == 1 and isinstance(before[0], ast.Starred) and isinstance(before[0].value, ast.Name) \
+                and self.env.get(before[0].value.id, (None, None))[1] == "FILL" and after:
+            pos = self.env[before[0].value.id][0]
+        else:
+            self.err(v, "index tuple form")
+        a, ta = self.expr(sl.args[0])
+        b, tb = self.expr(sl.args[1])
+        return f"({pos}, {self.coerce(a, ta, N, v)}, {self.coerce(b, tb, N, v)})"
 
     def target_name(self, t):
         if isinstance(t, ast.Name):
@@ -709,6 +764,17 @@ class Tr:
             txt = self.block(body, 2, k_cont, k_ret)
             rt = [s.cell["arrays"][n][0] for n in s.cell["arrays"]]
             s.ret = rt[0] if len(rt) == 1 else ("T", tuple(rt))
+        elif s.gen:
+            self.env["out_"] = ("out_", ("L", ("T", (N, N, N))))
+            s.ret = ("L", ("T", (N, N, N)))
+
+            def k_cont():
+                return "out_"
+
+            def k_ret(v):
+                raise TranslateError(f"{s.file}:{s.name}: return with a value in a generator")
+
+            txt = "  let out_ : List (Nat × Nat × Nat) := []\n" + self.block(body, 2, k_cont, k_ret)
         else:
             def k_cont():
                 raise TranslateError(f"{s.file}:{s.name}: a path through the function returns nothing")
